@@ -8,7 +8,8 @@ import os
 
 from ..cfg import cfg_of
 from ..model import AnalysisError, call_name, calls_in, dotted, norm, walk_no_nested
-from .. import callgraph, machines, rules
+from .. import callgraph, inline, machines, rules
+from .. import conds as cnd
 
 REF = os.path.join(os.path.dirname(os.path.dirname(__file__)), "reference", "e37.json")
 
@@ -145,8 +146,8 @@ def _dispatch_table(ctx, f):
         handler_calls = [c for c in n.calls if "__handle_hsms_requests_" in (call_name(c) or "")]
         if not handler_calls:
             continue
-        conds = cfg.dominating_conditions(n)
-        members = [norm(t.comparators[0]).split(".")[-1] for t, v in conds if v and isinstance(t, ast.Compare) and len(t.ops) == 1 and isinstance(t.ops[0], ast.Eq) and norm(t.left).endswith(".header.s_type") and norm(t.comparators[0]).startswith("HsmsSType.")]
+        conds = cfg.dominating_conditions(n, derive=True)
+        members = [norm(t.comparators[0]).split(".")[-1] for t, v in conds if isinstance(t, ast.Compare) and len(t.ops) == 1 and ((isinstance(t.ops[0], (ast.Eq, ast.Is)) and v) or (isinstance(t.ops[0], (ast.NotEq, ast.IsNot)) and not v)) and norm(t.left).endswith(".header.s_type") and norm(t.comparators[0]).startswith("HsmsSType.")]
         ctx.require(len(members) == 1, f"{f.qualname}: cannot determine the SType condition of `{n.text()}`")
         table[members[0]] = (call_name(handler_calls[0]).split(".")[-1], handler_calls[0])
     return table
@@ -218,16 +219,14 @@ def _check_request_handler(ctx, cg, h, req, rsp):
         c = next(c for c in n.calls if call_name(c) == f"self.{sender}")
         ok = [norm(a) for a in c.args] == [sysarg]
         ctx.ob("C05.P1", q, ok, f"{rsp} carries the request's system bytes" if ok else f"`{norm(c)}` does not pass {sysarg}", key="rsp-system", where=h.where)
-        conds = cfg.dominating_conditions(n)
-        under_disc = any(norm(t).endswith(".disconnecting") and v for t, v in conds)
+        under_disc = any(t.endswith(".disconnecting") and pol for t, pol in cnd.facts(cfg, n))
         ctx.ob("C05.P1", q, not under_disc, f"{rsp} is sent while not disconnecting" if not under_disc else f"{rsp} is sent on the disconnecting branch", key="rsp-branch", where=h.where)
     for n in rej_nodes:
         c = next(c for c in n.calls if call_name(c) == "self.send_reject_rsp")
         a = [norm(x) for x in c.args]
         ok = len(a) == 3 and a[0] == sysarg and a[1] == f"{param}.header.s_type"
         ctx.ob("C05.P1", q, ok, "Reject carries the request's system bytes and SType" if ok else f"`{norm(c)}` does not pass ({sysarg}, {param}.header.s_type, reason)", key="reject-args", where=h.where)
-        conds = cfg.dominating_conditions(n)
-        under_disc = any(norm(t).endswith(".disconnecting") and v for t, v in conds)
+        under_disc = any(t.endswith(".disconnecting") and pol for t, pol in cnd.facts(cfg, n))
         ctx.ob("C05.P1", q, under_disc, "Reject is sent only while the endpoint is disconnecting" if under_disc else "a Reject is sent although the endpoint is not closing the connection", key="reject-branch", where=h.where)
     # transition after the response, same branch, right one
     tname = _TRANSITION.get(req)
@@ -273,9 +272,8 @@ def _check_response_handler(ctx, cg, h, rsp):
         txt = r.text()
         ok = f"self._response_queues[{param}.header.system]" in txt and norm(next(c for c in r.calls if _is_route_call(c)).args[0]) == param
         ctx.ob("C05.P1", q, ok, "routing key is the message's system bytes and the message itself is delivered" if ok else f"`{txt}` does not deliver the message under its own system bytes", key="route-key", where=h.where)
-        conds = [(norm(t), v) for t, v in cfg.dominating_conditions(r)]
-        ok = (f"{param}.header.system in self._response_queues", True) in conds
-        ctx.ob("C05.P1", q, ok, "routing happens iff a requester is registered for the system bytes" if ok else f"routing guard is {conds}", key="route-guard", where=h.where)
+        ok = cnd.holds(cfg, r, f"{param}.header.system in self._response_queues")
+        ctx.ob("C05.P1", q, ok, "routing happens iff a requester is registered for the system bytes" if ok else f"routing guard is [{cnd.describe(cfg, r)}]", key="route-guard", where=h.where)
     tname = _TRANSITION[rsp]
     trans = [n for n in cfg.real_nodes() if _transition_calls(n)]
     right = [n for n in trans if any(call_name(c).endswith("." + tname) for c in _transition_calls(n))]
@@ -300,9 +298,8 @@ def check_data_gate(ctx):
     # control/data split
     ctl = [n for n in cfg.real_nodes() if any("__handle_hsms_requests" in c for c in n.call_names())]
     ctx.require(len(ctl) == 1, f"{q}: control dispatch call not found")
-    split = [(t, v) for t, v in cfg.dominating_conditions(ctl[0])]
-    ok = any(_is_control_test(t, v, param) for t, v in split)
-    ctx.ob("C05.P2", q, ok, "control messages (SType != 0) go to the control dispatcher" if ok else f"control dispatch guard {[(norm(t), v) for t, v in split]} is not `s_type != DATA`", key="split", where=f.where)
+    ok = _is_control_branch(cnd.facts(cfg, ctl[0]), param)
+    ctx.ob("C05.P2", q, ok, "control messages (SType != 0) go to the control dispatcher" if ok else f"control dispatch guard [{cnd.describe(cfg, ctl[0])}] is not `s_type != DATA`", key="split", where=f.where)
     routes = _routing_nodes(cfg)
     fires = [n for n in cfg.real_nodes() if any(c.endswith("events.fire") for c in n.call_names()) and "message_received" in n.text()]
     deliveries = routes + fires
@@ -384,21 +381,15 @@ def check_data_gate(ctx):
         ctx.ob("C05.X1", q, True, "no raising call precedes the gate and the delivery", key="none", where=f.where)
 
 
-def _is_control_test(t, v, param) -> bool:
-    txt = norm(t)
-    if ".header.s_type" not in txt:
-        return False
-    if isinstance(t, ast.Compare) and len(t.ops) == 1 and isinstance(t.comparators[0], ast.Constant) and t.comparators[0].value == 0:
-        op = t.ops[0]
-        if isinstance(op, (ast.Gt, ast.NotEq)):
-            return v
-        if isinstance(op, (ast.Eq, ast.LtE)):
-            return not v
-    if isinstance(t, ast.Compare) and len(t.ops) == 1 and norm(t.comparators[0]).endswith("DATA_MESSAGE"):
-        if isinstance(t.ops[0], (ast.NotEq, ast.IsNot)):
-            return v
-        if isinstance(t.ops[0], (ast.Eq, ast.Is)):
-            return not v
+def _is_control_branch(facts, param) -> bool:
+    """The facts say: the SType is not 0 / not DATA_MESSAGE (canonical atoms, see sa.conds)."""
+    for t, pol in facts:
+        if ".header.s_type" not in t:
+            continue
+        if t.endswith(".header.s_type.value < 1") and not pol:  # value > 0, value >= 1
+            return True
+        if (t.endswith(".header.s_type.value == 0") or t.endswith("DATA_MESSAGE")) and " == " in t and not pol:
+            return True
     return False
 
 
@@ -406,7 +397,7 @@ def check_wiring(ctx):
     repo = ctx.repo
     f = _method(repo, "HsmsProtocol", "_on_connected")
     ctx.touch(f)
-    cfg = cfg_of(f.node)
+    cfg = cfg_of(inline.expanded(ctx, f))
     conn = [n for n in cfg.real_nodes() if any(c == "self._connection_state.connect" for c in n.call_names())]
     start = [n for n in cfg.real_nodes() if any(c == "self._thread.start" for c in n.call_names())]
     fire = [n for n in cfg.real_nodes() if any(c.endswith("events.fire") for c in n.call_names()) and "'connected'" in n.text()]
@@ -424,7 +415,7 @@ def check_wiring(ctx):
         ctx.ob("C05.P5", f.qualname, ok, "listeners of 'connected' see the new state" if ok else "'connected' is fired before the transition", key="connect-before-event", where=f.where)
     f = _method(repo, "HsmsProtocol", "_on_disconnected")
     ctx.touch(f)
-    cfg = cfg_of(f.node)
+    cfg = cfg_of(inline.expanded(ctx, f))
     for label, pred in (
         ("disconnect transition", lambda n: any(c == "self._connection_state.disconnect" for c in n.call_names())),
         ("disconnected event", lambda n: any(c.endswith("events.fire") for c in n.call_names()) and "'disconnected'" in n.text()),
@@ -461,7 +452,7 @@ def check_wiring(ctx):
             hcfg = cfg_of(hm.node)
             for n in hcfg.real_nodes():
                 if any((call_name(c) or "").endswith("_select_req_thread.start") for c in n.calls):
-                    guarded = any(norm(t).endswith("is_active") and v for t, v in hcfg.dominating_conditions(n))
+                    guarded = any(t.endswith("is_active") and pol for t, pol in cnd.facts(hcfg, n))
             ctx.ob("C05.P5", hm.qualname, guarded, "the active side (only) starts the select procedure on connect" if guarded else "the select thread is not started exactly under `settings.is_active`", key="active-select", where=hm.where)
         elif role == "cancel":
             ok = any(n.endswith("_linktest_timer.cancel") for n in names)
